@@ -27,6 +27,8 @@ LIB = {
     "xpk/xm.py": "MV = 'xpk.xm.MV'\n\n\ndef mf():\n    return 'xpk.xm.mf'\n",
     "xpk/xs/__init__.py": "",
     "xpk/xs/xd.py": "DV = 'xpk.xs.xd.DV'\n",
+    "xm.py": "TV = 'xm.TV'\n",                    # a top-level module with the same last name as xpk/xm.py
+    "xpk/xpk.py": "QV = 'xpk.xpk.QV'\n",          # a module named like the package that contains it
 }
 USE = {"fn": "%s()", "Cl": "%s.tag", "XV": "%s", "helper": "%s()"}
 
@@ -44,12 +46,17 @@ XD_STYLES = {
     "root": [("import xpk.xs.xd", "xpk.xs.xd.DV"), ("from xpk.xs import xd", "xd.DV"), ("from xpk.xs.xd import DV", "DV"), ("from xpk import xs", "xs.xd.DV")],
     "pkg": [("from .xs import xd", "xd.DV"), ("from .xs.xd import DV", "DV"), ("from . import xs", "xs.xd.DV")],
 }
-EXTRA = [("import xpk as p", "p.PV"), ("from xpk import PV", "PV"), ("import xb", "xb.BV"), ("import xpk", "xpk.PV")]
+EXTRA = [("import xpk as p", "p.PV"), ("from xpk import PV", "PV"), ("import xb", "xb.BV"), ("import xpk", "xpk.PV"),
+         # for clients inside xpk: relative imports of the package module whose last name equals the destination's
+         ("from .xm import MV", "MV"), ("from . import xm", "xm.MV")]
+XQ_STYLES = {"root": [("import xpk.xpk", "xpk.xpk.QV"), ("from xpk import xpk as inner", "inner.QV"), ("from xpk.xpk import QV", "QV"), ("from xpk import xpk", "xpk.QV")],
+             "pkg": [("from . import xpk", "xpk.QV"), ("from .xpk import QV", "QV")]}
 
 OPS = []
 for elem in ("fn", "Cl", "XV"):
     for dest in ("xb.py", "xpk/xm.py", "xpk/xs/xd.py", "xpk/__init__.py"):
         OPS.append(("G", elem, dest))
+OPS += [("G", "fn", "xm.py"), ("R", "xpk/xpk.py", "xn2"), ("M", "xpk/xpk.py", "xpk/xs")]
 OPS += [("M", "xa.py", "xpk"), ("M", "xa.py", "xpk/xs"), ("M", "xpk/xm.py", ""), ("M", "xpk/xm.py", "xpk/xs"), ("M", "xpk/xs", ""),
         ("R", "xa.py", "xz"), ("R", "xpk/xm.py", "xn"), ("R", "xpk", "xq"), ("R", "xpk/xs", "xt"), ("P", "xa.py")]
 
@@ -149,7 +156,11 @@ def styles_for(op, loc):
     """Client import styles relevant to the thing that moves."""
     k = op[0]
     if k == "G":
+        if loc == "pkg" and op[2] == "xm.py":
+            return [("from xa import fn", "fn()"), ("import xa", "xa.fn()")]
         return [(s.replace("{E}", op[1]), USE[op[1]] % r.replace("{E}", op[1])) for s, r in XA_STYLES] if loc == "root" else []
+    if op[1] == "xpk/xpk.py":
+        return XQ_STYLES.get(loc, [])
     target = op[1]
     if target == "xa.py":
         return [(s.replace("{E}", "fn"), USE["fn"] % r.replace("{E}", "fn")) for s, r in XA_STYLES] if loc == "root" else []
@@ -172,7 +183,7 @@ def client_source(stmts):
 class C05(Check):
     pid = "C05"
     level = "exploration"
-    rule = ("cases = (operation in 22: MoveGlobal of a function/class/variable to a flat module, a package module, a nested "
+    rule = ("cases = (operation in 25 (incl. a destination whose last name equals a package module's, and a module named like its package): MoveGlobal of a function/class/variable to a flat module, a package module, a nested "
             "package module and a package __init__; MoveModule of a module/package into and out of packages; Rename of a module, "
             "a package module, a package, a sub-package; ModuleToPackage) x client location {root, package, sub-package} x client "
             "import block {every import style of the moved thing, every ordered pair of styles, every style followed/preceded by "
@@ -199,6 +210,8 @@ class C05(Check):
                     out.append({"op": oi, "loc": loc, "block": b, "extra": None})
                 for i in range(len(st)):
                     for e in range(len(EXTRA)):
+                        if EXTRA[e][0].startswith("from .") != (loc == "pkg" and op[0] == "G"):
+                            continue
                         out.append({"op": oi, "loc": loc, "block": [i], "extra": [e, "after"]})
                         out.append({"op": oi, "loc": loc, "block": [i], "extra": [e, "before"]})
         for oi in range(len(OWN_OPS)):
